@@ -122,7 +122,18 @@ func vpH_C14_passthrough() {
 	k.retRev = ret
 	fails := vpChoose("fails", 2) == 1
 	if fails {
-		k.retErr = vpErrNats
+		// every kind of client error must be passed through untouched, without a second client call
+		switch vpChoose("error", 4) {
+		case 0:
+			k.retErr = vpErrNats
+		case 1:
+			k.retErr = nats.ErrKeyExists
+		case 2:
+			k.retErr = nats.ErrKeyNotFound
+		case 3:
+			k.retErr = nats.ErrKeyDeleted
+		}
+		k.retEnt = &vpNEntry{key: key, val: nil, rev: ret} // what a further Get would return: a live, empty value
 	}
 	op := vpChoose("op", 5)
 	vpCover("C14.passthrough")
@@ -140,6 +151,9 @@ func vpH_C14_passthrough() {
 		if entKind == 1 && !fails {
 			k.retEnt = &vpNEntry{key: key, val: val, rev: ret}
 		}
+		if fails {
+			k.retEnt = nil
+		}
 		e, err := a.Get(key)
 		vpAssert("C14.passthrough", len(k.calls) == 1 && k.calls[0].op == "Get" && k.calls[0].key == key)
 		vpAssert("C14.passthrough:result", (err != nil) == fails)
@@ -154,7 +168,7 @@ func vpH_C14_passthrough() {
 		vpAssert("C14.passthrough:result", (err != nil) == fails)
 	case 4:
 		w, err := a.Watch(key)
-		vpAssert("C14.passthrough", len(k.calls) == 1 && k.calls[0].op == "Watch" && k.calls[0].key == key)
+		vpAssert("C14.passthrough", len(k.calls) == 1 && k.calls[0].op == "Watch" && k.calls[0].key == key && k.calls[0].rev == 0) // no watch options: subsequent changes only
 		vpAssert("C14.passthrough:result", (err != nil) == fails && (w == nil) == fails)
 		if w != nil {
 			w.Stop()
